@@ -206,10 +206,15 @@ def check_pins(rel):
     return bad
 
 
+import itertools
+_COQ_EVAL_N = itertools.count(1)
+
+
 def coq_eval(name, preamble, exprs, shard=400, timeout=900):
     """Evaluate each Gallina expression with vm_compute in coqc; return list of printed values
     (strings), one per expr, in order.  Sharded over up to 16 coqc processes."""
-    d = os.path.join(TMP, name)
+    # one directory per call: checks of different properties share model names ("session") and may run at the same time
+    d = os.path.join(TMP, "%s.%d.%d" % (name, os.getpid(), next(_COQ_EVAL_N)))
     shutil.rmtree(d, ignore_errors=True)
     os.makedirs(d)
     shards = [exprs[i:i + shard] for i in range(0, len(exprs), shard)] or [[]]
